@@ -452,9 +452,41 @@ Reconnect ==
         /\ g' = IF expired THEN [g EXCEPT !.ids = {}] ELSE g
   /\ ph' = "run" /\ netIn' = <<>> /\ netEnd' = "open" /\ wrm' = "accept" /\ retd' = <<>> /\ secsAgo' = <<>>
   /\ discW' = FALSE
-  /\ cfg' = [cfg EXCEPT !.R = Ln.R, !.M = Ln.M, !.sei = Ln.sei]
+  /\ cfg' = [cfg EXCEPT !.R = Ln.R, !.M = Ln.M, !.sei = Ln.sei, !.recon = 1]
   /\ blockedOn' = <<>>
   /\ UNCHANGED <<mode, verdict, msgQ, inCtx, nh, supp>>
+
+\* the first response to connect()/authorize()  (C13)
+FirstWant(inj, rc, x) ==
+  CASE inj = "CONNACK" -> IF IsFail(rc) THEN Res("ret", "ConnectError", rc, x) ELSE Res("ret", "ConnectRsp", rc, "")
+    [] inj = "AUTH"    -> IF IsFail(rc) THEN Res("ret", "AuthError", rc, x) ELSE Res("ret", "AuthRsp", rc, "")
+    [] OTHER           -> Res("ret", "SocketClosed", 0, "")
+
+First ==
+  /\ Ok /\ Ev("first") /\ Adv
+  /\ SameRes(FirstWant(Ln.inj, Ln.rc, Ln.x), Ln.res)
+  /\ UNCHANGED <<mode, verdict, cfg, S, msgQ, netIn, netEnd, wrm, ph, inCtx, retd, ops, sts, nh, discW, g,
+                 resumeQ, supp, secsAgo, blockedOn>>
+
+\* one fuzz case (C04): bytes injected in some phase, then the transport ends.  o1 = state of the affected call
+\* after the bytes, o2 = after the end of the transport.  Permitted: keeps serving having consumed everything, or
+\* has returned; after the transport ended it must have returned.  "exempt" = the documented assertion.
+FuzzOK(f) ==
+  \/ f.o1 = "exempt"
+  \/ /\ f.o1 \in {"pending", "ret"} /\ f.o2 \in {"pending", "ret"} /\ f.oppanic = 0
+     /\ (f.o1 = "pending" => f.unread = 0)
+     /\ (f.o1 = "ret" \/ f.o2 = "ret")
+
+Fuzz ==
+  /\ Ok /\ Ev("fuzz") /\ Adv /\ FuzzOK(Ln)
+  /\ UNCHANGED <<mode, verdict, cfg, S, msgQ, netIn, netEnd, wrm, ph, inCtx, retd, ops, sts, nh, discW, g,
+                 resumeQ, supp, secsAgo, blockedOn>>
+
+\* outcome of replaying a script under another polling discipline (C16)
+DiscCmp ==
+  /\ Ok /\ Ev("disccmp") /\ Adv /\ Ln.same = 1
+  /\ UNCHANGED <<mode, verdict, cfg, S, msgQ, netIn, netEnd, wrm, ph, inCtx, retd, ops, sts, nh, discW, g,
+                 resumeQ, supp, secsAgo, blockedOn>>
 
 \* informational lines that need no reference step
 Info ==
@@ -467,7 +499,7 @@ Normal ==
   \/ CtxBegin \/ TakeResume \/ TakeMsgSilent \/ TakeMsgWrite \/ TakeMsgWriteFails
   \/ TakePktSilent \/ TakePktWrite \/ TakePktWriteFails \/ TakePktBlocked \/ TakeOwed \/ TakeOwedFails
   \/ TakeNetEnd \/ TakeHandlesGone
-  \/ CtxEndPending \/ CtxEndReturn \/ Quiescent \/ MarkDisc \/ Reconnect \/ Info
+  \/ CtxEndPending \/ CtxEndReturn \/ Quiescent \/ MarkDisc \/ Reconnect \/ Info \/ First \/ Fuzz \/ DiscCmp
 
 \* ------------------------------------------------------------------------------------------
 \* classification of a divergence: which property's clause does the unexplained line violate?
@@ -491,6 +523,8 @@ ClassifyWr(pk) ==
   IF ph # "run" \/ discW THEN V("C13", "write-after-end", pk.t)
   ELSE IF pk.t = "MALFORMED" THEN V("C01", "malformed-packet", pk.x)
   ELSE IF resumeQ # <<>> THEN V("C17", "resume-mismatch", <<pk.t, pk.id, pk.dup, Head(resumeQ).t, Head(resumeQ).id>>)
+  ELSE IF cfg.recon = 1 /\ ((pk.t = "PUBLISH" /\ pk.dup = 1) \/ (pk.t = "PUBREL" /\ (msgQ = <<>> \/ Head(msgQ).pk.t # "PUBREL")))
+       THEN V("C17", "unexpected-retransmission", <<pk.t, pk.id>>)
   ELSE IF pk.t \in {"PUBACK", "PUBREC", "PUBCOMP"} THEN
          V("C08", "unexpected-ack", <<pk.t, pk.id, IF netIn # <<>> THEN <<Head(netIn).t, Head(netIn).id, Head(netIn).qos>> ELSE <<>> >>)
   ELSE IF msgQ # <<>> /\ (Head(msgQ).pk.t # pk.t \/ (pk.t = "PUBLISH" /\ Head(msgQ).pk.tag # pk.tag))
@@ -582,6 +616,13 @@ Classify ==
     [] Ln.e = "pollop"    -> ClassifyPollOp
     [] Ln.e = "pollst"    -> ClassifyPollSt
     [] Ln.e = "quiescent" -> ClassifyQuiescent
+    [] Ln.e = "fuzz"      -> IF Ln.o1 = "panic" \/ Ln.o2 = "panic" \/ Ln.oppanic # 0
+                               THEN V("C04", "panic", <<Ln.phase, Ln.case, Ln.msg>>)
+                             ELSE IF Ln.o1 = "pending" /\ Ln.unread # 0 THEN V("C04", "stalled-with-unread-input", <<Ln.phase, Ln.case, Ln.unread>>)
+                             ELSE V("C04", "no-return-after-transport-end", <<Ln.phase, Ln.case>>)
+    [] Ln.e = "disccmp"   -> V("C16", "outcome-depends-on-polling-discipline", <<Ln.variant, Ln.detail>>)
+    [] Ln.e = "first"     -> IF Ln.res.r = "panic" THEN V("C04", "panic-in-connect", Ln.inj)
+                             ELSE V("C13", "first-response", <<Ln.phase, Ln.inj, Ln.rc, Ln.res.kind, Ln.res.rc>>)
     [] OTHER              -> V("TOOL", "unmatched-environment-line", Ln.e)
 
 Diverge ==
@@ -598,7 +639,7 @@ Skip ==
 
 Init ==
   /\ l = 1 /\ mode = "ok" /\ verdict = <<>>
-  /\ cfg = [run |-> 0, fam |-> ""]
+  /\ cfg = [run |-> 0, fam |-> "", recon |-> 0]
   /\ S = InitS(1, 0) /\ msgQ = <<>> /\ netIn = <<>> /\ netEnd = "open" /\ wrm = "accept"
   /\ ph = "run" /\ inCtx = "no" /\ retd = <<>> /\ ops = <<>> /\ sts = <<>> /\ nh = 1 /\ discW = FALSE
   /\ g = [ids |-> {}, sids |-> {}, nsub |-> 0] /\ resumeQ = <<>> /\ supp = {} /\ secsAgo = <<>> /\ blockedOn = <<>>
